@@ -1,18 +1,18 @@
 SPECIFICATION Spec
 CONSTANTS
-  Ents = {1, 2, 3}
-  ReqTimeouts = {0, 2}
+  Ents = {1, 2}
+  ReqTimeouts = {2}
   WishFixed = {0}
   WishServer = TRUE
   Intervals = {3}
   Delays = {1}
   WishItems = 1
   DefaultIval = 9
-  EnvOps = {"search", "cmd", "wlmsg", "remove", "reply"}
+  EnvOps = {"search", "remove", "wlmsg"}
   MaxOps = 3
   MaxTime = 3
   MaxTasks = 4
-  MaxTicket = 3
+  MaxTicket = 1
   UnsetGuard = TRUE
   RemoveCancels = TRUE
   SharedGen = TRUE
@@ -22,7 +22,7 @@ CONSTANTS
   StartBeforeEmit = TRUE
   CmdFreshTicket = TRUE
   TimeoutUsesRemove = FALSE
-  LstCode = "-"
+  LstCode = "us"
 INVARIANT TypeOK
 INVARIANT DistinctTickets
 INVARIANT RegistryExact
